@@ -190,6 +190,31 @@ pub enum Policy {
     RoundRobin,
     /// run the given thread whenever it is enabled (solo runs)
     Prefer(usize),
+    /// a script: run thread `.0` until condition `.1` holds, then go on with the next entry;
+    /// afterwards round-robin
+    Directed(Vec<(usize, Cond)>, usize),
+}
+
+#[derive(Clone, Debug)]
+pub enum Cond {
+    /// the thread's next shared operation lies in the named function
+    EntersFn(String),
+    /// the thread has completed this many operations of its program
+    CompletedOps(usize),
+    /// the thread has made this many further steps since the directive became current
+    Steps(u64),
+    Done,
+}
+
+/// (file suffix, line, function) rows of the translator's site table, for EntersFn
+pub static SITE_FNS: Mutex<Vec<(String, u32, String)>> = Mutex::new(Vec::new());
+pub fn fn_of(file: &str, line: u32) -> Option<String> {
+    // the function whose signature starts last at or before `line` in that file
+    let t = SITE_FNS.lock().unwrap();
+    t.iter()
+        .filter(|r| file.ends_with(&format!("/src/{}", r.0)) && r.1 <= line)
+        .max_by_key(|r| r.1)
+        .map(|r| r.2.clone())
 }
 
 pub struct Inner {
@@ -216,6 +241,8 @@ pub struct Inner {
     pub shutdown: bool,
     pub status_at_verdict: Vec<Status>,
     pub last_op: Vec<(&'static str, u32)>,
+    pub ops_done: Vec<usize>,
+    pub directive_steps: u64,
 }
 
 pub struct Sched {
@@ -248,6 +275,8 @@ impl Sched {
                 shutdown: false,
                 status_at_verdict: Vec::new(),
                 last_op: vec![("", 0); n],
+                ops_done: vec![0; n],
+                directive_steps: 0,
             }),
             cv: Condvar::new(),
         })
@@ -317,6 +346,33 @@ impl Sched {
                         break *p;
                     }
                     break en[0];
+                }
+                Policy::Directed(script, pos) => {
+                    if *pos >= script.len() {
+                        inner.policy = Policy::RoundRobin;
+                        continue;
+                    }
+                    let (t, cond) = script[*pos].clone();
+                    let finished = inner.status[t] == Status::Finished;
+                    let sat = match &cond {
+                        Cond::EntersFn(f) => {
+                            let (file, line) = inner.last_op[t];
+                            inner.status[t] != Status::NotStarted && fn_of(file, line).as_deref() == Some(f.as_str())
+                        }
+                        Cond::CompletedOps(n) => inner.ops_done[t] >= *n,
+                        Cond::Steps(n) => inner.directive_steps >= *n,
+                        Cond::Done => finished,
+                    };
+                    if sat || finished || !en.contains(&t) {
+                        // next directive (a blocked thread cannot satisfy its directive: skip it)
+                        if let Policy::Directed(_, p) = &mut inner.policy {
+                            *p += 1;
+                        }
+                        inner.directive_steps = 0;
+                        continue;
+                    }
+                    inner.directive_steps += 1;
+                    break t;
                 }
             }
         };
@@ -444,6 +500,11 @@ impl Sched {
         let mut g = self.inner.lock().unwrap();
         g.shutdown = true;
         self.cv.notify_all();
+    }
+
+    /// a worker reports that it completed one operation of its program
+    pub fn op_completed(&self, me: usize) {
+        self.inner.lock().unwrap().ops_done[me] += 1;
     }
 
     /// an extra yield point requested by the harness itself
